@@ -456,6 +456,25 @@ func runC11(x *core.Ctx) {
 			return map[string]any{"type": s.Name, "packets": len(targets), "operation_sequences_each": len(seqs)}
 		})
 	}
+	// CONNECT packets whose will was changed after SetWill: read-only
+	// operations must be read-only there too
+	for _, t := range c11ModTargets() {
+		if !x.Mine() {
+			continue
+		}
+		t := t
+		for _, sq := range seqs {
+			x.Eval("readonly.will-changed-after-attach")
+			x.R.Transitions += int64(len(sq))
+			if f := c11ReadOnly(t, sq); f != nil {
+				sq := sq
+				x.Report(f, func() core.Case {
+					return core.Case{Harness: "c11.readonly", Choices: sq, Params: map[string]any{"type": 1, "vec": []int(t.Vec), "mod": t.Mod}}
+				}, func() *core.Finding { return c11ReadOnly(t, sq) })
+			}
+		}
+		x.R.States++
+	}
 	x.R.Extra["state_changes_without_observable_effect"] = c11DigestChanges
 	// (C) cross-process fingerprints on the plain build
 	if x.Shard == 0 {
